@@ -219,6 +219,10 @@ func (s *fileSeedSegment) clone(dst, src *os.File, srcOffset, srcLength, dstOffs
 
 	srcAlignStart := (srcOffset/blocksize + 1) * blocksize
 	srcAlignEnd := (srcOffset + srcLength) / blocksize * blocksize
+	if srcAlignEnd <= srcAlignStart {
+		// The range doesn't contain a whole block that could be cloned, copy it all
+		return s.copy(dst, src, srcOffset, srcLength, dstOffset)
+	}
 	dstAlignStart := (dstOffset/blocksize + 1) * blocksize
 	alignLength := srcAlignEnd - srcAlignStart
 	dstAlignEnd := dstAlignStart + alignLength
